@@ -346,14 +346,16 @@ fn run_k_inner(args: &[&str]) -> String {
         id:         usize,
         data_lock:  usize,
         slot_locks: usize,
+        slots:      usize,
         n_slots:    usize,
     }
     let stride = std::mem::size_of::<verif::RwLock<()>>().max(1);
+    let cell_stride = std::mem::size_of::<verif::UnsafeCell<Option<Elem>>>().max(1);
     let mut ids: HashMap<usize, usize> = HashMap::new();
     let mut blocks: Vec<Block> = Vec::new();
     ids.insert(root_addr, 0);
-    if let Some(Event::Alloc { data_lock, slot_locks, n_slots, .. }) = m.lock().unwrap().root {
-        blocks.push(Block { id: 0, data_lock, slot_locks, n_slots });
+    if let Some(Event::Alloc { data_lock, slot_locks, slots, n_slots, .. }) = m.lock().unwrap().root {
+        blocks.push(Block { id: 0, data_lock, slot_locks, slots, n_slots });
     }
     let mut next_id = 1usize;
     let mut tr = Vec::new();
@@ -369,9 +371,9 @@ fn run_k_inner(args: &[&str]) -> String {
             }
             Tr::Ev(e) => e,
         };
-        if let Event::Alloc { ptr, data_lock, slot_locks, n_slots } = e {
+        if let Event::Alloc { ptr, data_lock, slot_locks, slots, n_slots } = e {
             ids.insert(*ptr, next_id);
-            blocks.push(Block { id: next_id, data_lock: *data_lock, slot_locks: *slot_locks, n_slots: *n_slots });
+            blocks.push(Block { id: next_id, data_lock: *data_lock, slot_locks: *slot_locks, slots: *slots, n_slots: *n_slots });
             next_id += 1;
         }
         let id = |a: usize| -> usize { ids.get(&a).copied().unwrap_or(9999) };
@@ -398,7 +400,16 @@ fn run_k_inner(args: &[&str]) -> String {
             }
             format!("L?{addr:x}")
         };
+        let cell = |addr: usize| -> String {
+            for b in blocks.iter().rev() {
+                if addr >= b.slots && addr < b.slots + b.n_slots * cell_stride && (addr - b.slots) % cell_stride == 0 {
+                    return format!("a{}.{}", b.id, (addr - b.slots) / cell_stride);
+                }
+            }
+            format!("a?{addr:x}")
+        };
         let s = match e {
+            Event::Access { addr } => cell(*addr),
             Event::Lock { addr, write } => lock(*addr, *write, true),
             Event::Unlock { addr, write } => lock(*addr, *write, false),
             Event::Rmw { delta, order } => {
